@@ -221,6 +221,50 @@ Definition frun (f : ftable) (o : fop) : ftable := match o with FU c w now => ft
     return len(cases)
 
 
+def same_session_at_once(res, tier):
+    """an already-consumed session changes nothing - also when the second confirmation of a session arrives while the first one is still
+    being processed: n confirmations of ONE session sent at the same moment raise the count by exactly one"""
+    import threading
+    from checks import conc_common as CC
+    from checks.c15 import Server_client
+    wd = workdir("c06c")
+    rounds = 0
+    try:
+        for delays in ({"confirm.before_pref_lock": 40}, {"confirm.before_store_lock": 10, "confirm.before_pref_lock": 5}, {}):
+            s = CC.start(wd, delays=delays)
+            try:
+                if not s.up:
+                    res.violation("the server does not start", {"delays": delays})
+                    return rounds
+                for rnd_ in range(3 if tier == "quick" else 12):
+                    st, r = s.call("GetCandidates", {"input": "くるま"}, timeout=20)
+                    if st != "ok" or not r["candidates"]:
+                        break
+                    st0, before = s.dump()
+                    p = {"session_id": r["session_id"], "candidate_id": "0"}
+                    out = []
+                    def one():
+                        out.append(Server_client(s).call("UpdateFrequency", p, timeout=30)[0])
+                    ths = [threading.Thread(target=one) for _ in range(6)]
+                    for t in ths:
+                        t.start()
+                    for t in ths:
+                        t.join(40)
+                    st1, after = s.dump()
+                    if st0 == "ok" and st1 == "ok":
+                        rounds += 1
+                        rise = sum(f[2] for f in after["frequencies"]) - sum(f[2] for f in before["frequencies"])
+                        if rise != 1:
+                            res.violation(f"6 confirmations of one session sent at the same moment raised the learned counts by {rise}, not by one", {"kind": "same_session_at_once", "delays": delays, "statuses": out})
+                            return rounds
+            finally:
+                s.stop()
+                shutil.rmtree(os.path.join(wd, "user"), ignore_errors=True)
+    finally:
+        cleanup(wd)
+    return rounds
+
+
 def run(tier, seed):
     res = Result(PROP, tier, seed)
     rnd = random.Random(seed)
@@ -245,10 +289,23 @@ def run(tier, seed):
     k_out = 1100 if tier == "quick" else 5000
     items.append((many_base, [{"kind": "convert", "input": "き", "context": "Normal"} for _ in range(k_out)]
                   + [{"kind": "confirm", "session": 2, "cid": "1"}, {"kind": "confirm", "session": k_out - 1, "cid": "0"}, {"kind": "confirm", "session": 2, "cid": "1"}]))
+    # a long candidate list (ids run to two digits: "10" sorts before "2" as a string): every id of it, confirmed, raises its own word's count
+    homo = "木気期機器黄樹季基紀記貴喜危"
+    wide_base = {"std": [{"reading": "き", "stem": k, "speech": {"Noun": "Common"}} for k in homo], "anc": [], "tankan": []}
+    wreqs = []
+    for i in list(range(len(homo))) + [13, 10, 2]:
+        wreqs += [{"kind": "convert", "input": "き", "context": "Normal"}, {"kind": "confirm", "session": len(wreqs) // 2, "cid": str(i)}]
+    items.append((wide_base, wreqs))
+    # the same written form learned in two contexts, one count stale and one fresh: the stale one alone is dropped by the next confirmation
+    DAY = 24 * 3600 * 1000
+    two_ctx = dict(many_base, init_freq=[("Normal", "木", 3, 5 * DAY), ("Numeral", "木", 2, 3600 * 1000), ("ForeignWord", "気", 4, 5 * DAY), ("Proper", "気", 1, 60 * 1000)])
+    items.append((two_ctx, [{"kind": "convert", "input": "き", "context": "Normal"}, {"kind": "confirm", "session": 0, "cid": "1"},
+                            {"kind": "convert", "input": "き", "context": "Numeral"}, {"kind": "confirm", "session": 1, "cid": "0"}]))
     runs = run_histories(items, threads=12)
     nontrivial = sum(1 for hr in runs if predicate(res, hr))
     rr = rerank_predicate(res, tier, rnd)
     nf = expiry_cases(res, tier, rnd)
+    n_once = same_session_at_once(res, tier)
     n_model = model_histories(res, PROP, runs)
     cov = {
         "obligations": info["obligations"], "discharged": info["discharged"],
@@ -258,7 +315,7 @@ def run(tier, seed):
         "evaluations": sum(len(hr.requests) for hr in runs) + 3 * rr, "distinct_nontrivial": nontrivial,
         "rule": "histories of GetCandidates / GetProperCandidates / UpdateFrequency with valid, stale, repeated, cross-session and malformed ids on the real server, learned counts read through Verif.Dump after every request; "
                 "plus library-level comparisons with and without learned counts (n = 10^6) incl. counts of another context; non-trivial = a confirmation with candidate id >= 1, or a stale / repeated id of a live session",
-        "histories": len(runs), "rerank_cases": rr, "frequency_table_cases_around_expiry": nf, "traces_validated_against_impl": n_model,
+        "histories": len(runs), "same_session_at_once_rounds": n_once, "rerank_cases": rr, "frequency_table_cases_around_expiry": nf, "traces_validated_against_impl": n_model,
         "samples": [runs[0].requests[:6]],
 
     }
